@@ -9,11 +9,11 @@ import (
 
 // strMeta says how a workload string was produced.
 type strMeta struct {
-	Src      string // generator
-	V2       bool
-	Sharp    int // spec.Defect that a single classified edit introduced, or -1
-	SharpMin int // decoder levels (inclusive) for which Sharp applies
-	SharpMax int
+	Src         string // generator
+	V2          bool
+	Sharp       int // spec.Defect that a single classified edit introduced, or -1
+	SharpMin    int // decoder levels (inclusive) for which Sharp applies
+	SharpMax    int
 	SharpMetric string // the metric the classified edit touched ("-" when none)
 }
 
@@ -155,18 +155,18 @@ func tokenEdits3(w *W, prefix string, toks []string, m *strMeta, visit strVisito
 	m.Sharp = -1
 	n := len(toks)
 	for i := 0; i < n; i++ {
-		visit(w, join3(prefix, without(toks, i)), m)              // drop
-		visit(w, join3(prefix, inserted(toks, i, toks[i])), m)    // duplicate adjacent
-		visit(w, join3(prefix, inserted(toks, n, toks[i])), m)    // duplicate distant (end)
-		visit(w, join3(prefix, inserted(toks, 0, toks[i])), m)    // duplicate distant (front)
+		visit(w, join3(prefix, without(toks, i)), m)                       // drop
+		visit(w, join3(prefix, inserted(toks, i, toks[i])), m)             // duplicate adjacent
+		visit(w, join3(prefix, inserted(toks, n, toks[i])), m)             // duplicate distant (end)
+		visit(w, join3(prefix, inserted(toks, 0, toks[i])), m)             // duplicate distant (front)
 		visit(w, join3(prefix, inserted(without(toks, i), 0, toks[i])), m) // move to front
 		visit(w, join3(prefix, append(without(toks, i), toks[i])), m)      // move to end
-		visit(w, join3(prefix, inserted(toks, i, "")), m)         // empty token (doubled '/')
+		visit(w, join3(prefix, inserted(toks, i, "")), m)                  // empty token (doubled '/')
 		name, val, _ := strings.Cut(toks[i], ":")
 		for _, c := range allCodes {
 			if c != val {
-				visit(w, join3(prefix, replaced(toks, i, name+":"+c)), m)                  // value of another metric / X
-				visit(w, join3(prefix, inserted(toks, (i+3)%(n+1), name+":"+c)), m)        // duplicate with a different value
+				visit(w, join3(prefix, replaced(toks, i, name+":"+c)), m)           // value of another metric / X
+				visit(w, join3(prefix, inserted(toks, (i+3)%(n+1), name+":"+c)), m) // duplicate with a different value
 			}
 		}
 		for _, nm := range allNames3 {
@@ -526,15 +526,15 @@ func lengthSweep(v2 bool, big bool) []string {
 	for _, n := range ns {
 		rep := func(t string) string { return strings.Repeat(t, n) }
 		out = append(out,
-			prefix+valid+rep("/"),              // n trailing empty tokens
-			prefix+valid+rep("/ZZ:N"),          // n unknown tokens
-			prefix+valid+rep("/E:X"),           // n repeated optional tokens
-			prefix+rep("AV:N/")+valid,          // n leading duplicates
-			rep("/"),                           // only separators
-			prefix+valid+"/"+rep(":"),          // n colons
-			prefix+valid+"/E:"+rep("X"),        // value of length n
-			prefix+valid+"/"+rep("E")+":X",     // name of length n
-			prefix+rep("/")+valid,              // n empty tokens before the metrics
+			prefix+valid+rep("/"),          // n trailing empty tokens
+			prefix+valid+rep("/ZZ:N"),      // n unknown tokens
+			prefix+valid+rep("/E:X"),       // n repeated optional tokens
+			prefix+rep("AV:N/")+valid,      // n leading duplicates
+			rep("/"),                       // only separators
+			prefix+valid+"/"+rep(":"),      // n colons
+			prefix+valid+"/E:"+rep("X"),    // value of length n
+			prefix+valid+"/"+rep("E")+":X", // name of length n
+			prefix+rep("/")+valid,          // n empty tokens before the metrics
 			prefix+valid+"/"+strings.Join(opt[:min(n, len(opt))], "/")+rep("/"), // optional metrics then n empty tokens
 		)
 		// a valid vector padded to exactly n separators in total with unknown tokens
